@@ -124,4 +124,16 @@ theorem wf_trim {m : Map} (h : Spec.WF m) : Spec.WF (trimTilesetSources m) :=
     src := fun s hs => h.src s (List.mem_filter.mp hs).1,
     nmap := h.nmap, maps := h.maps, nter := h.nter, ters := h.ters, ngrp := h.ngrp, grps := h.grps }
 
+/-! ## overwriting one word of a file -/
+
+/-- overwrite the four bytes at `off` -/
+def setWord (bs : Bytes) (off : Nat) (v : Nat) : Bytes := bs.take off ++ encU32 v ++ bs.drop (off + 4)
+
+theorem setWord_mid (a w c : Bytes) (v : Nat) (hw : w.length = 4) : setWord (a ++ w ++ c) a.length v = a ++ encU32 v ++ c := by
+  unfold setWord
+  have e : a ++ w ++ c = a ++ (w ++ c) := List.append_assoc _ _ _
+  rw [e, List.take_left' rfl]
+  have hl : a.length + 4 = (a ++ w).length := by simp [hw]
+  rw [hl, ← e, List.drop_left' rfl]
+
 end Op2.Map
